@@ -5,14 +5,6 @@ Import ListNotations.
 From Osmo Require Import Base.Obs Base.DecModel C11.Model.
 Open Scope Z_scope.
 
-(* an operation of the model, or the environment's slash of a validator *)
-Inductive eop := EOp (o : op) | ESlash (order : list (Z * Z)) (v factor : Z).
-Definition eapply (cfg : config) (st : state) (e : eop) : state * Z * Z :=
-  match e with
-  | EOp o => apply cfg st o
-  | ESlash order v f => match slash st order v f with Ok st' => (st', 0, 0) | Err x => (st, x, 0) end
-  end.
-
 Record case := mkCase {
   c_cfg : config;
   c_t0 : Z;
